@@ -2,6 +2,7 @@ import ZvbiModel.Cache.HiSub
 import ZvbiModel.Cache.UniqueKey
 import ZvbiModel.Cache.EvictLemmas
 import ZvbiModel.Cache.LemmasWitness
+import ZvbiModel.Cache.LemmasAbsR
 /-!
 # C10, round 3: eviction / limits, 'highest subpage', the repaired source shape
 
@@ -190,9 +191,9 @@ def hi_subno_agrees_full : Prop :=
     p.net = n.id → p.subno ≤ (n.getStat p.pgno).subMax
 
 /-- Repaired shape: store refines the map WITHOUT the F17 exception - under a single-version key all versions of the page
-    number are replaced (`aputR`).  Not proved as a list equation (most-recently-used order of the remaining versions);
-    proved: `unique_key_repaired` (the store is a map), `version_bound_repaired`, `refines_map_put_repaired_partial`, and
-    `refines_map_put` (Props/C10.lean) for the shape as found. -/
+    number are replaced (`aputR`) - as a LIST equation: the most-recently-used order of the remaining versions included.
+    PROVED: `refines_map_put_repaired` below (Cache/LemmasAbsR.lean: `delete_page` is a filter on the retrievable versions
+    with their ids, the version found stays at the head of the chain through the loop). -/
 def refines_map_put_repaired_full : Prop :=
   ∀ (ops : List Op) (nid : Nat) (cn : Net) (a : PutArg), (runF true init ops).findNet nid = some cn →
     a.pgno &&& 0xFF ≠ 0xFF → (0x100 ≤ a.pgno ∧ a.pgno ≤ 0x8FF) →
@@ -201,7 +202,29 @@ def refines_map_put_repaired_full : Prop :=
       s'.abs = aputR (runF true init ops).abs (putEntry nid a (putKey (cn.getStat a.pgno).ptype a.pgno a.subno).1)
         (putKey (cn.getStat a.pgno).ptype a.pgno a.subno).2
 
-/-- what IS proved about the repaired store in terms of the map: after a store of the repaired shape no OTHER retrievable
+/-- **Repaired shape: the store refines the map (list form).**  For every reachable state of the repaired source, a store
+    with memory not short turns the abstract store into `aputR`: under a single-version key (`mask = 0`) EVERY version of
+    the page number in that network is replaced, otherwise exactly the version found under the key; the new version is the
+    most recent one and is the page handed out; every other version keeps its place in the most-recently-used order. -/
+theorem refines_map_put_repaired : refines_map_put_repaired_full := by
+  intro ops nid cn a hf hlow hrange hroom s' r hres
+  exact (putPageR_abs (good_reach true ops).1 hf a hlow hrange hroom hres).1
+
+/-- ... and the page handed out is the new version; both source shapes at once (`aputF fix`) -/
+theorem refines_map_put_both (fix : Bool) (ops : List Op) (nid : Nat) (cn : Net) (a : PutArg)
+    (hf : (runF fix init ops).findNet nid = some cn) (hlow : a.pgno &&& 0xFF ≠ 0xFF) (hrange : 0x100 ≤ a.pgno ∧ a.pgno ≤ 0x8FF)
+    (hroom : (runF fix init ops).memUsed + pageSize a.func a.x26 a.x28 ≤ (runF fix init ops).memLimit)
+    (s' : State) (r : Option Page) (hres : (runF fix init ops).putPageF fix nid a = .ok (s', r)) :
+    s'.abs = aputF fix (runF fix init ops).abs (putEntry nid a (putKey (cn.getStat a.pgno).ptype a.pgno a.subno).1)
+        (putKey (cn.getStat a.pgno).ptype a.pgno a.subno).2
+    ∧ r.map Page.entry = some (putEntry nid a (putKey (cn.getStat a.pgno).ptype a.pgno a.subno).1) :=
+  putPageF_abs fix (good_reach fix ops).1 hf a hlow hrange hroom hres
+
+/-- non-vacuity: a sub-page store, another, then a single-version store leaves ONE retrievable version -/
+example : ((runF true init [.addNet, .put 0 ⟨0x100, 1, 0, 0, 0, 1⟩, .put 0 ⟨0x100, 2, 0, 0, 0, 2⟩,
+    .put 0 ⟨0x100, 0x100, 0, 0, 0, 3⟩]).abs.map (·.subno)) = [0x100] := by decide +kernel
+
+/-- what is proved about the repaired store WITHOUT the room hypothesis: after a store of the repaired shape no OTHER retrievable
     version of the network has the page number and key of the page handed out - the new version is THE version under its
     key (`putTailR_fresh` + `insertNew`), for every reachable state and without a room hypothesis -/
 theorem refines_map_put_repaired_partial (ops : List Op) (nid : Nat) (a : PutArg) (s' : State) (p : Page)
